@@ -4,7 +4,7 @@ from .. import net
 
 ID = "C20"
 PROPS = ["theories/Props/C20.vo"]
-PINNED = ["C20_roundtrip", "C20_holds_outside", "C20_reuse_wakes", "C20_refuted_registration_outlives_wait",
+PINNED = ["C20_roundtrip", "C20_holds_outside", "C20_no_tag_outside", "C20_reuse_wakes", "C20_refuted_registration_outlives_wait",
           "C20_refuted_registration_outlives_wait_cross", "C20_refuted_one_token_per_descriptor",
           "C20_wake_hits", "C20_no_cross_wake", "C20_unregistered_direction_has_no_waiter"]
 CASES_MODULE = "Cases.C20"
@@ -15,12 +15,14 @@ TIMEOUT_MS = 30000
 LEVEL = "proof"
 SHRINK_KEY = "ops"
 SHARD_SIZE = 40
+HARNESS_JOBS = 8                 # real event-loop threads and real 30 ms waits: do not oversubscribe the machine
 RULE = ("histories of 3-14 operations over 2-3 socketpair ends pinned to fixed descriptor numbers and 1-4 named "
         "coroutines whose 64-bit ids are known (5 ids below 2^32, 16 with high bits): wait / timed-out wait for "
         "readability or writability, read readiness (a byte from the peer), write readiness (the full send buffer "
         "drains), deletion of both interests / of one interest, hooked close, reuse of the closed descriptor number by "
-        "a new socket. Three families: 'clean' (about half; generated inside the premises of C20_holds_outside), "
-        "'reuse' (about a quarter; both interests on one number, close, reuse, wait on the reused number, readiness), "
+        "a new socket. Four families: 'clean' (45%; generated inside the premises of C20_holds_outside), "
+        "'reuse' (23%; both interests on one number, close, reuse, wait on the reused number, readiness), "
+        "'dirdel' (14%; both interests on one number, deletion of ONE of them, waits for what is left), "
         "'free' (the rest; anything in range, coroutines mostly not already waiting). A case is non-trivial when a "
         "readiness event was delivered to the loop or a waiter was left without one; distinct = distinct "
         "(nfd, op list)")
@@ -221,6 +223,39 @@ def gen_reuse(rng):
     return {"nfd": nfd, "ops": ops, "family": "reuse"}
 
 
+def gen_dirdel(rng):
+    """one coroutine, one descriptor: both interests (waits that end by time-out or by their readiness), deletion
+    of ONE interest, then waits for the direction that is left and for the deleted one, each with its readiness"""
+    nfd = rng.randint(1, 2)
+    names = _names(rng)
+    fd = rng.randrange(nfd)
+    c = rng.choice(names)
+    ops = []
+
+    def ended_wait(d):
+        if rng.random() < 0.5:
+            ops.append(_wait("waitt", d, c, fd))
+        else:
+            ops.append(_wait("wait", d, c, fd))
+            ops.append({"op": "ready", "dir": d, "fd": fd})
+
+    d1 = _dir(rng)
+    ended_wait(d1)
+    ended_wait(_other(d1))
+    if rng.random() < 0.3:
+        ended_wait(_dir(rng))
+    dd = _dir(rng)
+    ops.append({"op": "del", "dir": dd, "fd": fd})
+    dirs = [_other(dd), dd]
+    rng.shuffle(dirs)
+    if rng.random() < 0.4:
+        dirs.append(_dir(rng))
+    for d in dirs:
+        ops.append(_wait("wait", d, c, fd))
+        ops.append({"op": "ready", "dir": d, "fd": fd})
+    return {"nfd": nfd, "ops": ops, "family": "dirdel"}
+
+
 def gen_free(rng):
     nfd = rng.randint(2, 3)
     names = _names(rng)
@@ -257,11 +292,18 @@ def gen_free(rng):
 
 
 def gen(rng, tier):
-    n = {"quick": 56, "thorough": 420, "search": 180}[tier]
+    n = {"quick": 80, "thorough": 480, "search": 200}[tier]
     cases = []
     while len(cases) < n:
         r = rng.random()
-        c = gen_clean(rng) if r < 0.5 else (gen_reuse(rng) if r < 0.75 else gen_free(rng))
+        if r < 0.45:
+            c = gen_clean(rng)
+        elif r < 0.68:
+            c = gen_reuse(rng)
+        elif r < 0.82:
+            c = gen_dirdel(rng)
+        else:
+            c = gen_free(rng)
         if c["ops"]:
             cases.append(c)
     return cases
@@ -271,22 +313,28 @@ def _d(o):
     return gbool(o.get("dir") == "w")
 
 
+def _fd(o):
+    # slot k is descriptor k+1 of the model: descriptor 0 is never a slot (it is what the runtime falls back to
+    # for a token unknown to TOKEN_FD; the real slots sit at descriptor numbers 240..)
+    return gz(int(o["fd"]) + 1)
+
+
 def _op(o):
     k = o["op"]
     if k == "wait":
-        return "Wait %s %s %s" % (_d(o), gz(o["id"]), gz(o["fd"]))
+        return "Wait %s %s %s" % (_d(o), gz(o["id"]), _fd(o))
     if k == "waitt":
-        return "WaitT %s %s %s" % (_d(o), gz(o["id"]), gz(o["fd"]))
+        return "WaitT %s %s %s" % (_d(o), gz(o["id"]), _fd(o))
     if k == "ready":
-        return "Ready %s %s" % (_d(o), gz(o["fd"]))
+        return "Ready %s %s" % (_d(o), _fd(o))
     if k == "del":
         if o.get("dir") is None:
-            return "Del %s" % gz(o["fd"])
-        return "DelDir %s %s" % (_d(o), gz(o["fd"]))
+            return "Del %s" % _fd(o)
+        return "DelDir %s %s" % (_d(o), _fd(o))
     if k == "close":
-        return "Close %s" % gz(o["fd"])
+        return "Close %s" % _fd(o)
     if k == "reopen":
-        return "Reopen %s" % gz(o["fd"])
+        return "Reopen %s" % _fd(o)
     raise ValueError("unknown op %r" % (o,))
 
 
@@ -317,7 +365,7 @@ def _obs(v):
 
 def term(case, obs):
     return "{| c_nfd := %s; c_ops := %s; c_impl := %s |}" % (
-        gz(case["nfd"]), glist([_op(o) for o in case["ops"]]), glist([_obs(v) for v in obs]))
+        gz(int(case["nfd"]) + 1), glist([_op(o) for o in case["ops"]]), glist([_obs(v) for v in obs]))
 
 
 def _missed(case, obs):
@@ -335,11 +383,11 @@ def distribution(results):
          "busy": 0, "failed_waits": 0, "low_id_waits": 0, "high_id_waits": 0, "other_obs": 0,
          "rows_both_interests": 0, "cases_with_both_interests": 0, "cases_with_reuse": 0,
          "waits_on_reused_number": 0, "write_waits_on_reused_number": 0,
-         "cases_clean": 0, "cases_reuse": 0, "cases_free": 0, "cases_corpus": 0,
+         "cases_clean": 0, "cases_reuse": 0, "cases_dirdel": 0, "cases_free": 0, "cases_corpus": 0,
          "cases_in_premises_of_holds_outside": 0, "cases_wf": 0}
     for c, o, v in results:
         fam = c.get("family")
-        d["cases_" + fam if fam in ("clean", "reuse", "free") else "cases_corpus"] += 1
+        d["cases_" + fam if fam in ("clean", "reuse", "dirdel", "free") else "cases_corpus"] += 1
         if "premises_of_holds_outside" in v["tags"]:
             d["cases_in_premises_of_holds_outside"] += 1
         if "wf" in v["tags"]:
